@@ -209,7 +209,7 @@ def run(c):
         if nthread == 1:
             if kavg1 is None:
                 kavg1 = (r.cols['k_avg'], desc)
-            elif not np.array_equal(r.cols['k_avg'], kavg1[0]):
+            elif r.cols['k_avg'].shape == kavg1[0].shape and not np.array_equal(r.cols['k_avg'], kavg1[0]):
                 problem(f'exact:k_avg-nthread1:{sigtail}',
                         f"{desc}: k_avg={r.cols['k_avg'].tolist()} but {kavg1[1]}: {kavg1[0].tolist()} (both nthread=1)")
 
